@@ -238,16 +238,68 @@ theorem walk_free_untouched (q : Q) (f : Item → Item) (o : Option Nat)
   rw [bumpFrom_none (hg sid ho)] at h2
   cases h2
 
-/-- the side condition under which `AddPoll` keeps recycled items marked: the cursor does not point into the free list -/
-def AddGuard (q : Q) (c : Cursor) : Prop := ∀ sid, c.cur = some sid → ∀ it ∈ q.free, it.sid ≠ sid
+theorem bumpFrom_some_of_after {f : Item → Item} {l : List Item} {sid r} (h : after l sid = some r) :
+    ∃ l', bumpFrom f l sid = some l' := by
+  induction l with
+  | nil => simp [after] at h
+  | cons a l ih =>
+    unfold after at h
+    unfold bumpFrom
+    by_cases ha : a.sid = sid
+    · simp only [ha, if_true]; exact ⟨_, rfl⟩
+    · simp only [ha, if_false] at h ⊢
+      obtain ⟨l', hl⟩ := ih h
+      exact ⟨a :: l', by rw [hl]; rfl⟩
 
-theorem addPoll_inv {A q hist c} (h : Inv A q hist) (hg : AddGuard q c) : Inv (A + 1) (addPoll q c) hist := by
+/-- `AddPoll` never touches the free list: it walks only from an item that is not marked as recycled, and such an item is linked -/
+theorem addPoll_walk_free {A q hist} (h : Inv A q hist) (c : Cursor) (n : Nat) :
+    (walk { q with pollCount := n } incPollCount (addStart q c)).free = q.free := by
+  unfold addStart
+  split
+  · rfl
+  · rename_i sid hcur
+    split
+    · rename_i it nxt hloc
+      by_cases hm : it.pollCount = M32 ∨ it.seq ≠ c.seq
+      · rw [if_pos hm]; rfl
+      · rw [if_neg hm]
+        have hm1 : it.pollCount ≠ M32 := fun e => hm (Or.inl e)
+        have hlive : ∃ r, after q.live sid = some r := by
+          unfold locate at hloc
+          split at hloc
+          · rename_i r hr; exact ⟨r, hr⟩
+          · rename_i hr
+            obtain ⟨pre, hp, _⟩ := after_some hloc
+            exact absurd (h.freeMarked it (by rw [hp]; simp)) hm1
+        obtain ⟨r, hr⟩ := hlive
+        obtain ⟨l', hl'⟩ := bumpFrom_some_of_after (f := incPollCount) hr
+        rcases walk_cases { q with pollCount := n } incPollCount (some sid) with e | ⟨s2, l2, hs, _, e⟩ | ⟨s2, l2, hs, h1, _, _⟩
+        · rw [e]
+        · rw [e]
+        · cases hs; rw [show ({ q with pollCount := n } : Q).live = q.live from rfl, hl'] at h1; cases h1
+    · rename_i hloc
+      -- a pointer that is in neither list (cannot happen): nothing is walked
+      have h1 : after q.live sid = none := by
+        unfold locate at hloc
+        split at hloc
+        · cases hloc
+        · rename_i hr; exact hr
+      have h2 : after q.free sid = none := by
+        unfold locate at hloc
+        split at hloc
+        · cases hloc
+        · exact hloc
+      apply walk_free_untouched
+      intro s2 hs; cases hs
+      exact after_none h2
+
+theorem addPoll_inv {A q hist c} (h : Inv A q hist) : Inv (A + 1) (addPoll q c) hist := by
   unfold addPoll
-  have w := walk_live { q with pollCount := (q.pollCount + 1) % W32 } incPollCount same_incPollCount c.cur
-  have wf := walk_free_untouched { q with pollCount := (q.pollCount + 1) % W32 } incPollCount c.cur hg
+  have w := walk_live { q with pollCount := (q.pollCount + 1) % W32 } incPollCount same_incPollCount (addStart q c)
+  have wf := addPoll_walk_free h c ((q.pollCount + 1) % W32)
   have wp := walk_live_pointwise { q with pollCount := (q.pollCount + 1) % W32 } incPollCount
     (fun a b => b.pollCount ≤ a.pollCount + 1) (fun a => Nat.le_succ _)
-    (fun a => by simp only [incPollCount]; exact Nat.mod_le _ _) c.cur
+    (fun a => by simp only [incPollCount]; exact Nat.mod_le _ _) (addStart q c)
   obtain ⟨k, hk⟩ := h.live
   refine ⟨⟨k, LiveOk.pointwise w.1 hk⟩, ?_, ?_, ?_, ?_, ?_⟩
   · rw [w.2.1]; exact h.seq
@@ -304,7 +356,7 @@ theorem curOk_setPollCount {q : Q} {d} (n : Nat) (hc : CurOk q d) : CurOk { q wi
 theorem addPoll_curOk {q c d} (hc : CurOk q d) : CurOk (addPoll q c) d := by
   unfold addPoll
   generalize (q.pollCount + 1) % W32 = n
-  have w := walk_live { q with pollCount := n } incPollCount same_incPollCount c.cur
+  have w := walk_live { q with pollCount := n } incPollCount same_incPollCount (addStart q c)
   exact curOk_pointwise w.2.1 w.1 (curOk_setPollCount n hc)
 
 theorem removePoll_curOk {q c d} (hc : CurOk q d) : CurOk (removePoll q c) d := by
